@@ -669,6 +669,82 @@ Proof.
   reflexivity.
 Qed.
 
+(* ---------- OpenPGP key packet ---------- *)
+
+Lemma pgp_read_mpi_enc : forall n rest, bitlen n < 65536 ->
+  pgp_read_mpi (pgp_mpi_enc n ++ rest) = Ok (bitlen n, be_min n, rest).
+Proof.
+  intros n rest H. unfold pgp_read_mpi, pgp_mpi_enc, ssh1_mpi_enc.
+  rewrite <- app_assoc.
+  replace 2%nat with (length (N_to_be 2 (bitlen n))) at 1 by apply length_N_to_be.
+  rewrite read_full_app. cbn [bind].
+  rewrite be_to_N_N_to_be by (change (256 ^ N.of_nat 2) with 65536; assumption).
+  unfold bitlen. fold (byte_len n).
+  replace (byte_len n) with (length (be_min n)) by (unfold be_min; apply length_N_to_be).
+  rewrite read_full_app. reflexivity.
+Qed.
+
+Lemma N_to_be_4_shape : forall v, exists a b c d, N_to_be 4 v = [a; b; c; d].
+Proof.
+  intros v. pose proof (length_N_to_be 4 v) as H.
+  destruct (N_to_be 4 v) as [|a [|b [|c [|d [|x l]]]]]; cbn in H; try discriminate. now exists a, b, c, d.
+Qed.
+
+Lemma length_be_min_small : forall e, e < 16777216 -> (length (be_min e) <= 3)%nat.
+Proof.
+  intros e H. pose proof (length_be_min e) as L. pose proof (bitlen_lt_pow e 24 H) as B. unfold bitlen in B.
+  assert ((N.size e + 7) / 8 <= 3).
+  { apply N.lt_succ_r. apply N.div_lt_upper_bound; lia. }
+  lia.
+Qed.
+
+Lemma pgp_rsa_facts : forall created n e, bitlen n < 65536 -> e < 16777216 ->
+  pgp_key_facts (pgp_rsa_body created n e)
+  = Ok [(bs "Algorithm", pgp_algo_name 1); (bs "Size", bits_value (bitlen n))].
+Proof.
+  intros created n e Hn He. unfold pgp_key_facts, pgp_key_facts_gen, pgp_rsa_body.
+  destruct (N_to_be_4_shape created) as (a & b & c & d & Hc). rewrite Hc.
+  change ([4] ++ [a; b; c; d] ++ [1] ++ pgp_mpi_enc n ++ pgp_mpi_enc e)
+    with ([4; a; b; c; d; 1] ++ pgp_mpi_enc n ++ pgp_mpi_enc e).
+  change 6%nat with (length [4; a; b; c; d; 1]). rewrite read_full_app. cbn [bind nth].
+  change (4 =? 4) with true. change (1 =? 1) with true. cbn [negb orb].
+  rewrite pgp_read_mpi_enc by assumption. cbn [bind].
+  rewrite <- (app_nil_r (pgp_mpi_enc e)).
+  rewrite pgp_read_mpi_enc by (pose proof (bitlen_lt_pow e 24 He); lia). cbn [bind].
+  pose proof (length_be_min_small e He) as L.
+  destruct (Nat.ltb 3 (length (be_min e))) eqn:E; [apply Nat.ltb_lt in E; lia|].
+  reflexivity.
+Qed.
+
+Lemma pgp_dsa_facts : forall created p q g y,
+  bitlen p < 65536 -> bitlen q < 65536 -> bitlen g < 65536 -> bitlen y < 65536 ->
+  pgp_key_facts (pgp_dsa_body created p q g y)
+  = Ok [(bs "Algorithm", pgp_algo_name 17); (bs "Size", bits_value (bitlen p))].
+Proof.
+  intros created p q g y Hp Hq Hg Hy. unfold pgp_key_facts, pgp_key_facts_gen, pgp_dsa_body.
+  destruct (N_to_be_4_shape created) as (a & b & c & d & Hc). rewrite Hc.
+  change ([4] ++ [a; b; c; d] ++ [17] ++ pgp_mpi_enc p ++ pgp_mpi_enc q ++ pgp_mpi_enc g ++ pgp_mpi_enc y)
+    with ([4; a; b; c; d; 17] ++ pgp_mpi_enc p ++ pgp_mpi_enc q ++ pgp_mpi_enc g ++ pgp_mpi_enc y).
+  change 6%nat with (length [4; a; b; c; d; 17]). rewrite read_full_app. cbn [bind nth].
+  change (4 =? 4) with true. change (17 =? 1) with false. change (17 =? 2) with false.
+  change (17 =? 3) with false. change (17 =? 17) with true. cbn [negb orb].
+  rewrite pgp_read_mpi_enc by assumption. cbn [bind].
+  rewrite pgp_read_mpi_enc by assumption. cbn [bind].
+  rewrite pgp_read_mpi_enc by assumption. cbn [bind].
+  rewrite <- (app_nil_r (pgp_mpi_enc y)).
+  rewrite pgp_read_mpi_enc by assumption. cbn [bind].
+  reflexivity.
+Qed.
+
+(* the seeded variant that counts whole octets refutes the size statement: 1025 bits shown as 1032 *)
+Lemma pgp_size_octets_witness :
+  bitlen (2 ^ 1024 + 1) = 1025
+  /\ pgp_key_facts_gen false (pgp_rsa_body 0 (2 ^ 1024 + 1) 65537)
+     = Ok [(bs "Algorithm", bs "RSA"); (bs "Size", bs "1032 bits")]
+  /\ pgp_key_facts (pgp_rsa_body 0 (2 ^ 1024 + 1) 65537)
+     = Ok [(bs "Algorithm", bs "RSA"); (bs "Size", bs "1025 bits")].
+Proof. repeat split; vm_compute; reflexivity. Qed.
+
 (* ================================================================== *)
 (* keys, containers, and what a description must say                   *)
 (* ================================================================== *)
@@ -703,7 +779,9 @@ Inductive key : Type :=
 
 Inductive container : Type :=
 | CPkcs1Pub | CPkcs1Priv | CDsaPriv | CSec1 | CSpki | CPkcs8
-| CSshPublic | COpenSshPrivate | CPutty | CSsh1.
+| CSshPublic | COpenSshPrivate | CPutty | CSsh1
+| CCertificate      (* the subject key of an X.509 certificate (also inside a keystore entry) *)
+| COpenPgp.         (* the primary key of an OpenPGP key block *)
 
 (* everything else a container stores next to the key: labels, comments, encryption
    parameters, and the private half (which must not influence the description) *)
@@ -713,7 +791,8 @@ Record meta := mk_meta {
   m_private : bytes;                                                    (* OpenSSH private block *)
   m_ppk_version : Z; m_ppk_encryption : bytes; m_ppk_kdf : bytes;
   m_ppk_memory : Z; m_ppk_passes : Z; m_ppk_parallelism : Z;
-  m_check_a : N; m_check_b : N; m_d : N; m_qinv : N; m_q : N; m_p : N; m_pad : bytes   (* SSH1 private half *)
+  m_check_a : N; m_check_b : N; m_d : N; m_qinv : N; m_q : N; m_p : N; m_pad : bytes;  (* SSH1 private half *)
+  m_created : N                                                         (* OpenPGP creation time *)
 }.
 
 (* the public key blob of RFC 4253 / 5656 / 8709 (PuTTY uses the same blobs) *)
@@ -782,6 +861,15 @@ Definition describe_fx (fx : fixes) (lib : ssh_oracle) (dec : bytes -> bytes) (c
   | CSsh1, KRsa n e =>
       ssh1_private_key fx dec
         (ssh1_enc 0 n e (m_comment m) (m_check_a m) (m_check_b m) (m_d m) (m_qinv m) (m_q m) (m_p m) (m_pad m))
+  | CCertificate, KRsa n _ => certificate_public_key [1; 2; 840; 113549; 1; 1; 1] None (Some (der_int_enc n)) no_ec
+  | CCertificate, KDsa p _ _ _ => certificate_public_key [1; 2; 840; 10040; 4; 1] (Some (der_int_enc p)) None no_ec
+  | CCertificate, KEc cv _ => certificate_public_key [1; 2; 840; 10045; 2; 1] None None (Ok (EcNamed (curve_oid cv)))
+  | CCertificate, KEd25519 _ => certificate_public_key [1; 3; 101; 112] None None no_ec
+  | CCertificate, KEd448 _ => certificate_public_key [1; 3; 101; 113] None None no_ec
+  | CCertificate, KX25519 _ => certificate_public_key [1; 3; 101; 110] None None no_ec
+  | CCertificate, KX448 _ => certificate_public_key [1; 3; 101; 111] None None no_ec
+  | COpenPgp, KRsa n e => pgp_public_key (pgp_rsa_body (m_created m) n e)
+  | COpenPgp, KDsa p q g y => pgp_public_key (pgp_dsa_body (m_created m) p q g y)
   | _, _ => Err "this container does not carry this kind of key"
   end.
 
@@ -804,7 +892,8 @@ Definition putty_key_kind (k : key) : bool :=
 Definition carries (c : container) (k : key) : bool :=
   match c, k with
   | CPkcs1Pub, KRsa _ _ | CPkcs1Priv, KRsa _ _ | CDsaPriv, KDsa _ _ _ _ | CSec1, KEc _ _ | CSsh1, KRsa _ _ => true
-  | CSpki, _ | CPkcs8, _ => true
+  | CSpki, _ | CPkcs8, _ | CCertificate, _ => true
+  | COpenPgp, KRsa _ _ | COpenPgp, KDsa _ _ _ _ => true
   | CSshPublic, _ | COpenSshPrivate, _ => ssh_key k
   | CPutty, _ => putty_key_kind k
   | _, _ => false
@@ -830,6 +919,12 @@ Definition fits (c : container) (k : key) (m : meta) : Prop :=
       match blob_of k with Some b => fits32 b | None => True end
   | CPutty => key_fits_ssh k
   | CSsh1 => match k with KRsa n e => ssh1_sizes_ok n e (m_d m) (m_qinv m) (m_q m) (m_p m) (m_comment m) | _ => True end
+  | COpenPgp =>   (* 16-bit MPI bit counts; the reader refuses exponents of more than three octets *)
+      match k with
+      | KRsa n e => bitlen n < 65536 /\ e < 16777216
+      | KDsa p q g y => bitlen p < 65536 /\ bitlen q < 65536 /\ bitlen g < 65536 /\ bitlen y < 65536
+      | _ => True
+      end
   | _ => True
   end.
 
@@ -1079,6 +1174,8 @@ Definition description_of (c : container) (m : meta) : bytes :=
                        else bs "OpenSSH private key (encrypted)"
   | CPutty => bs "puTTY private key (version " ++ dec_of_Z (m_ppk_version m) ++ bs ")"
   | CSsh1 => bs "SSH v1 key"
+  | CCertificate => bs "Public key"
+  | COpenPgp => bs "GPG/PGP public key"
   end.
 
 Definition meta_before (c : container) (k : key) (m : meta) : list attr :=
@@ -1189,6 +1286,27 @@ Proof.
     unfold ssh1_public_attrs, s1_n. cbn [s1_n_raw s1_comment fx_size all_fixed].
     rewrite be_to_N_be_min. cbn [description_of meta_before meta_after key_attrs crypto_public_attrs].
     fold (comment_attr (m_comment m)). now rewrite app_nil_r.
+  - (* certificate: the same describer as a bare SubjectPublicKeyInfo *)
+    destruct k as [n e|p q g y|cv pt|pk|pk|pk|pk]; unfold describe; cbn [describe_fx];
+      unfold certificate_public_key, with_desc, pkix_attrs; eval_oid; cbn [bind].
+    + rewrite twos_der_int_enc. reflexivity.
+    + rewrite twos_der_int_enc. reflexivity.
+    + unfold ec_parameters_attrs, attrs_or_none. cbn [bind].
+      unfold named_curve_attrs. cbn [meta_before meta_after key_attrs app]. unfold ecdsa_public_attrs.
+      now rewrite curve_from_oid_shown, curve_from_params_shown, app_nil_r.
+    + reflexivity.
+    + reflexivity.
+    + reflexivity.
+    + reflexivity.
+  - (* OpenPGP: the declared bit count of a well-formed MPI is the bit length *)
+    destruct k as [n e|p q g y| | | | |]; try discriminate; cbn [fits] in Hf; unfold describe; cbn [describe_fx];
+      unfold pgp_public_key.
+    + destruct Hf as [Hn He]. rewrite pgp_rsa_facts by assumption. cbn [bind].
+      cbn [description_of meta_before meta_after key_attrs app]. unfold rsa_public_attrs.
+      rewrite zbitlen_of_N. reflexivity.
+    + destruct Hf as (Hp & Hq & Hg & Hy). rewrite pgp_dsa_facts by assumption. cbn [bind].
+      cbn [description_of meta_before meta_after key_attrs app]. unfold dsa_attrs.
+      rewrite zbitlen_of_N. reflexivity.
 Qed.
 
 (* ---------- consequences ---------- *)
@@ -1438,7 +1556,7 @@ Qed.
 
 Definition meta0 : meta :=
   mk_meta (bs "user@host") (bs "none") (bs "none") [] 0 [1; 2; 3; 4]
-          3 (bs "none") [] 0 0 0 7 9 12345 77 251 241 [].
+          3 (bs "none") [] 0 0 0 7 9 12345 77 251 241 [] 1500000000.
 
 Definition f26_n : N := 2 ^ 2046 + 12345.
 Definition lib_yes : ssh_oracle := mk_ssh_oracle true [].
@@ -1456,9 +1574,9 @@ Proof. repeat split; vm_compute; reflexivity. Qed.
 
 (* F27 / N1: the PPK KDF line said MB, and was shown for version-2 files that store no KDF *)
 Definition meta_ppk3 : meta :=
-  mk_meta (bs "c") (bs "none") (bs "none") [] 0 [] 3 (bs "aes256-cbc") (bs "Argon2id") 8192 13 1 0 0 0 0 0 0 [].
+  mk_meta (bs "c") (bs "none") (bs "none") [] 0 [] 3 (bs "aes256-cbc") (bs "Argon2id") 8192 13 1 0 0 0 0 0 0 [] 0.
 Definition meta_ppk2 : meta :=
-  mk_meta (bs "c") (bs "none") (bs "none") [] 0 [] 2 (bs "aes256-cbc") [] 0 0 0 0 0 0 0 0 0 [].
+  mk_meta (bs "c") (bs "none") (bs "none") [] 0 [] 2 (bs "aes256-cbc") [] 0 0 0 0 0 0 0 0 0 [] 0.
 Definition ed_pk : bytes := repeat 7 32.
 
 Lemma F27_witness :
@@ -1504,7 +1622,7 @@ Proof. split; vm_compute; reflexivity. Qed.
 
 Definition meta_enc : meta :=
   mk_meta (bs "user@host") (bs "aes256-ctr") (bs "bcrypt") (repeat 5 16) 16 (repeat 9 64)
-          3 (bs "aes256-cbc") (bs "Argon2id") 8192 13 1 7 9 12345 77 251 241 [0; 0].
+          3 (bs "aes256-cbc") (bs "Argon2id") 8192 13 1 7 9 12345 77 251 241 [0; 0] 1500000000.
 
 Ltac decide_closed := first [exact I | (vm_compute; reflexivity) | (vm_compute; intros; discriminate)].
 
@@ -1516,7 +1634,7 @@ Qed.
 
 Lemma example_rsa_everywhere :
   forallb (fun c => carries c (KRsa f26_n 65537))
-    [CPkcs1Pub; CPkcs1Priv; CSpki; CPkcs8; CSshPublic; COpenSshPrivate; CPutty; CSsh1] = true.
+    [CPkcs1Pub; CPkcs1Priv; CSpki; CPkcs8; CSshPublic; COpenSshPrivate; CPutty; CSsh1; CCertificate; COpenPgp] = true.
 Proof. reflexivity. Qed.
 
 Lemma example_other_keys :
@@ -1569,4 +1687,31 @@ Proof.
   rewrite twos_der_int_enc, zbitlen_of_N.
   change (field_type_from_oid [1; 2; 840; 10045; 1; 1]) with (bs "prime field").
   destruct name; reflexivity.
+Qed.
+
+(* ---------- certificate and OpenPGP carriers ---------- *)
+
+Lemma pgp_names_ok :
+  pgp_algo_name 1 = bs "RSA" /\ pgp_algo_name 17 = bs "DSA" /\ pgp_algo_name 16 = bs "ElGamal".
+Proof. repeat split; vm_compute; reflexivity. Qed.
+
+Definition attrs_of_result (r : result info) : option (list attr) :=
+  match r with Ok i => Some (i_attrs i) | _ => None end.
+
+(* the subject key of a certificate is described exactly like the same key in a PUBLIC KEY block,
+   for every kind of key (Ed448, X448 and X25519 included: nothing depends on what crypto/x509 knows) *)
+Lemma certificate_like_spki : forall lib dec lib' dec' k m m',
+  attrs_of_result (describe lib dec CCertificate k m) = attrs_of_result (describe lib' dec' CSpki k m')
+  /\ attrs_of_result (describe lib dec CCertificate k m) = Some (key_attrs k).
+Proof.
+  intros lib dec lib' dec' k m m'.
+  assert (H : forall l d c mm, c = CCertificate \/ c = CSpki ->
+              attrs_of_result (describe l d c k mm) = Some (key_attrs k)).
+  { intros l d c mm Hc. unfold describe.
+    destruct Hc as [-> | ->]; destruct k; cbn [describe_fx]; unfold certificate_public_key, with_desc, pkix_attrs;
+      eval_oid; cbn [bind attrs_of_result i_attrs]; rewrite ?twos_der_int_enc; try reflexivity;
+      unfold ec_parameters_attrs, attrs_or_none; cbn [bind attrs_of_result i_attrs];
+      unfold named_curve_attrs, key_attrs, ecdsa_public_attrs;
+      now rewrite curve_from_oid_shown, curve_from_params_shown. }
+  split; [rewrite !H by auto; reflexivity|apply H; auto].
 Qed.
